@@ -14,7 +14,7 @@ META = {
     'technique': 'Coq proof by structural induction over CQL type trees on an executable model of cqltypes '
                  'to_binary/from_binary + differential correspondence with the real cassandra.cqltypes',
     'level_text': 'C01_roundtrip (from_binary (to_binary v) = norm v for every well-formed type tree, every protocol version and every '
-                  'value the encoder accepts, unbounded nesting and sizes), C01_null_elements, C01_empty_collections, C01_encodable proved '
+                  'value the encoder accepts, unbounded nesting and sizes), C01_null_elements, C01_null_fields, C01_empty_collections proved '
                   'about Model/CqlCodec.v; the model is compared with cassandra.cqltypes on generated types/values/bytes every run.',
     'level_note': 'Tie is correspondence (hand-written model), not translation. Modelled-not-verified: struct, str.encode/decode, '
                   'Decimal/datetime/UUID/inet conversions (the harness canonicalises them), util.sortedset ordering (C33). '
